@@ -24,9 +24,10 @@ from . import sim_c06 as pool
 
 ID = "C06"
 LEVEL = "proof"
-STRENGTH = "partial"   # never_early only under `Guard` (open F5b); liveness only under `LGuard` (open F9), as reachability, and for cycles that run to their end (open F10)
+STRENGTH = "partial"   # never_early only under `Guard` (open F5b); liveness under `LGuard` (no 422 injected without a write) as no-lost-wake-up + reachability, and for cycles that run to their end (open F10)
 ENGINES = ["lean-model", "pyextract", "purediff", "kopfsim"]
-TIE = ("T (conditions and effects of the finalizer block of process_resource_causes + the carry filter of process_resource_event: "
+TIE = ("T (conditions and effects of the finalizer block of process_resource_causes incl. what the early exit of the consistency gate "
+       "returns as delays + the carry filter of process_resource_event and the cycle's patch starting with what was carried: "
        "AST → Lean, re-proved equal to the model, and `decision` = their composition) + D (real finalizers.block_deletion/"
        "allow_deletion and Patch.as_json_patch on generated lists and bodies, marked or not; real ChangingRegistry/SpawningRegistry."
        "requires_finalizer on registries built with kopf's decorators vs. the loop model `requiresLoop`) + S (every cycle of whole-operator simulations: queued fns, delays "
@@ -37,7 +38,9 @@ LEVEL_TEXT = ("Lean theorems for ALL finalizer lists / fn sequences / decision i
               "edits, foreign finalizer edits and other writes, cycles on stale event bodies, handler & daemon completions, "
               "re-scheduling of purged deletion handlers, genuine or injected 422, restarts, foreign writes between any two requests "
               "of a cycle). FULL theorems: foreign_untouched, order_preserved, block/allow specs and idempotence, allow_after_block, "
-              "patch_is_fn_of_tested, foreign_untouched_lts, decision_spec, conflict_carries_nothing, cycle_decides_anew, add_on_match, "
+              "patch_is_fn_of_tested, foreign_untouched_lts, decision_spec, decision_delays_spec (a cycle that leaves as inconsistent "
+              "returns the rest of the waiting time — /repo 30557a0 — or, after a carried patch, a zero delay — the rework 02af7ce of 608a57d), "
+              "conflict_carries_nothing, cycle_decides_anew, add_on_match, "
               "remove_on_mismatch, add_remove_on_match, released_in_one_quiet_cycle, wakeup_layer_refines; who requires the finalizer "
               "(requires_finalizer of both registries as a loop over registrations): requires_iff (some non-excluded registration requires "
               "and matches), requires_order_irrelevant, requires_every_registration (stacked ids), with the regression "
@@ -46,8 +49,11 @@ LEVEL_TEXT = ("Lean theorems for ALL finalizer lists / fn sequences / decision i
               "hold under exactly the gap (when the cycle's own merge patch is sent with a removal queued, nothing requires the "
               "finalizer again; harmless writes and any number of 422 are allowed), with never_early_fails + "
               "stale_release_via_merge_witness; (2) liveness: no_lost_wakeup (an operator step is always enabled for a waiting "
-              "object) under LGuard = no 422 injected without a write (injected_422_loses_wakeup) and no handler-supplied no-op fns "
-              "in a cycle's patch (open F9, carried_fn_loses_wakeup; the former F8 history is the regression theorem noop_fn_keeps_wakeup); 'once all are finished it is removed' as an INEVITABILITY has no "
+              "object) under LGuard = no 422 injected without a write (injected_422_loses_wakeup) — since /repo 30557a0 and the rework "
+              "of 608a57d WITHOUT the former exclusion of handler-supplied no-op fns (F9 fixed: carried_fn_keeps_wakeup, with the old layer "
+              "`lstepOld` kept for the regression theorem carried_fn_lost_wakeup_before_repair) and without assuming that an awaited "
+              "version always arrives (inconsistent_noop_patch_keeps_wakeup = C03-N6/C07-F2 on a deletion; the former F8 history is "
+              "noop_fn_keeps_wakeup); 'once all are finished it is removed' as an INEVITABILITY has no "
               "theorem: release_reachable_when_quiet is reachability by the operator's steps alone with the environment's part of the "
               "cycle labels chosen quiet (consistent, no other delay, no re-scheduling) and all queued events already marked. "
               "A cycle that dies in its patching (API error past the request retries, swallowed by throttled()) has no label in the "
@@ -59,11 +65,13 @@ THEOREMS = [("Kopf.Props.C06", "Kopf.C06." + n) for n in [
     "allow_after_block", "patch_is_fn_of_tested", "foreign_untouched_lts", "decision_spec",
     "never_early_partial", "never_early_inv_partial", "conflict_carries_nothing", "cycle_decides_anew",
     "stale_release_via_merge_witness", "never_early_fails",
-    "released_in_one_quiet_cycle", "wakeup_layer_refines", "no_lost_wakeup", "release_reachable_when_quiet", "injected_422_loses_wakeup", "carried_fn_loses_wakeup", "noop_fn_keeps_wakeup",
+    "decision_delays_spec",
+    "released_in_one_quiet_cycle", "wakeup_layer_refines", "no_lost_wakeup", "release_reachable_when_quiet", "injected_422_loses_wakeup",
+    "carried_fn_keeps_wakeup", "carried_fn_lost_wakeup_before_repair", "inconsistent_noop_patch_keeps_wakeup", "noop_fn_keeps_wakeup",
     "add_on_match", "remove_on_mismatch", "add_remove_on_match",
     "requires_iff", "requires_order_irrelevant", "requires_every_registration", "dedup_before_match_loses_requirement_witness"]]
 TIE_THEOREMS = [("Kopf.Tie.C06", "Kopf.C06.Tie." + n) for n in [
-    "mustBlock_eq", "add_eq", "remove_eq", "early_eq", "release_eq", "effects_eq", "decision_eq", "carry_eq", "changed_eq"]]
+    "mustBlock_eq", "add_eq", "remove_eq", "early_eq", "release_eq", "wait_eq", "effects_eq", "decision_eq", "carry_eq", "changed_eq"]]
 RULE = ("D: finalizer lists over an alphabet with the own name 0-3 times, look-alikes, unicode, empty/absent containers, bodies with "
         "and without a deletion mark and labels, and fn sequences of length 0-4 through the real functions and Patch.as_json_patch; "
         "D2: registries of 0-5 registrations made with kopf's decorators (mandatory/optional deletion handlers, daemons, timers, "
@@ -75,7 +83,8 @@ RULE = ("D: finalizer lists over an alphabet with the own name 0-3 times, look-a
         "stacked), a configured finalizer name (kopf's default name is then a foreign finalizer), non-requiring handlers, event handlers with "
         "constant results (no-op merge content) or with state-checking patch fns that have nothing to change, label/spec edits, "
         "foreign finalizer edits, strip of the own finalizer, deletion at random moments, stops/kills/restarts, slips (a foreign "
-        "write right before the operator's n-th PATCH) and injected 422; one case = one processing cycle (decision incl. the delays "
+        "write right before the operator's n-th PATCH), injected 422, API outages (5xx), delayed watch events with the stream cut "
+        "(and compacted) at some moment = lost echoes; one case = one processing cycle (decision incl. the delays "
         "flag, JSON-patch outcome, carried fns, sleep-then-touch) resp. one whole trace (acceptance); distinct & non-trivial = "
         "distinct abstracted tuples in which a fn was queued, carried or a requirement was in force")
 TRUSTED = ["harness/props/sim_c06.py (stacked registrations, handler-supplied patch fns, foreign-finalizer ops for a configured finalizer name, "
@@ -83,7 +92,9 @@ TRUSTED = ["harness/props/sim_c06.py (stacked registrations, handler-supplied pa
            "scripted handlers/daemons, attribute-level observation of kopf)",
            "pyextract atom vocabulary for the finalizer block of processing.process_resource_causes",
            "abstraction of a cycle: matching = label filters of the scenario's handlers evaluated on the body the cycle was given; "
-           "`consistent` is read off whether process_changing_cause was reached"]
+           "`consistent` is read off whether process_changing_cause was reached; `deadline` = the consistency_time the worker passed "
+           "to the cycle; spawning delays = what process_spawning_cause returned; carried fns (`patch_initially_empty`) = what the "
+           "patch holds when process_resource_causes is entered"]
 ASSUMPTIONS = ["handler filters in generated scenarios are label filters only; D2 adds annotation filters and the resource selector; "
                "field/when filters are C15's subject: `prematch`/`match` enter the loop model as one Boolean per registration",
                "foreign actors never add or remove the framework's own finalizer except through the explicit strip op, which the "
@@ -92,13 +103,21 @@ ASSUMPTIONS = ["handler filters in generated scenarios are label filters only; D
                "at most one daemon/timer, where the model's Booleans are exact; others are tied per cycle (S) only",
                "in the replay the daemon's exit/abandonment and the deletion handler's completion are environment labels reconciled "
                "from the operator's memory snapshot and the progress records (that stop_daemons stops reporting a delay exactly when "
-               "the task is done or its timeouts have passed is C09's subject)",
+               "the task is done or its timeouts have passed is C09's subject); a trace is replayed up to a cycle in which a daemon "
+               "instance that was asked to stop for a filter mismatch still holds its id while the object matches again (/repo ef26531: "
+               "such cycles return a polling delay on an UNMARKED matching object — no release is at stake there; the per-cycle tie S "
+               "takes the observed spawning delays and covers those cycles)",
                "'finished' in the oracle = the latest handling pass before the instant left the handler finished (record kept, or "
                "final outcome in that pass); a purged-and-reinvoked handler counts as unfinished again",
                "liveness: the oracle judges only histories whose last 25 virtual seconds are quiet and in which no 422 was injected "
                "(injected 5xx answers are judged: open finding F10 — the LTS has no label for a cycle that dies in its patching, the "
                "liveness theorems are about cycles that run to their end); "
                "fairness (enabled operator steps are eventually taken, a consistent quiet cycle eventually comes) is not a theorem",
+               "the pause of the operator (peering) is neither simulated nor in the LTS: a paused cycle's early exit returns no delay by "
+               "design (the un-pausing brings a fresh listing) — C07's subject; the atom `paused` is translated and tied, and fed `false`",
+               "carried handler-supplied fns that DO change the object are outside the LTS (generated fns have nothing to change); the "
+               "wake-up layer lets a cycle leave as inconsistent only while a version is awaited or with a carried patch (tie A would "
+               "reject any other trace)",
                "merge patches with resourceVersion in the body are answered 409 if stale by this property's own worker only "
                "(harness/props/sim_c06.py); unrepaired kopf never sends one"]
 
@@ -134,6 +153,9 @@ SIG_F9 = {"site": "process_resource_causes+apply",
 SIG_F10 = {"site": "throttlers.throttled+queueing.worker",
            "shape": "never released: the cycle failed on an API error that outlasted the request retries; the error is swallowed, the "
                     "throttling pause ends without re-processing and no event follows"}
+SIG_N6 = {"site": "process_resource_causes",
+          "shape": "never released: the cycle still awaits the version of its own last write, its non-empty patch brings no event: it leaves "
+                   "before the handlers and the release without a delay, no event follows"}
 SIG_EARLY = {"site": "processing.process_resource_causes", "shape": "own finalizer removed while a finalizer is required"}
 
 
@@ -157,6 +179,38 @@ GATE_VOCAB = {
     "changing_cause is not None": "a.changingAfter",
     "consistency_is_achieved": "a.consistent",
 }
+WAIT_VOCAB = {
+    "consistency_time is not None": "a.deadline",
+    "operator_paused is not None and operator_paused.is_on()": "a.paused",
+    "patch_initially_empty": "a.initiallyEmpty",
+}
+# the early exit of the consistency gate (since /repo 30557a0 and the rework 02af7ce of 608a57d): the spawning delays plus one
+# waiting delay — the rest of the waiting time, or zero after a carried patch — under a translated chain of conditions
+EARLY_BODY = ["waiting_delays: Collection[float] = []",
+              None,     # `if … : pass  elif … : waiting_delays = [<one delay>]  elif …` — translated
+              "return (list(spawning_delays) + list(waiting_delays), False)"]
+EARLY_WAITS = ("waiting_delays = [max(0.0, consistency_time - asyncio.get_running_loop().time())]", "waiting_delays = [0.0]")
+
+
+def _wait_chain(st: ast.stmt, tr: Any) -> str:
+    """`if c1: <branch> elif c2: <branch> …` → Lean Bool: is a waiting delay appended? A branch is `pass` (no) or one of
+    the two known assignments of a one-element list (yes); no else-part means no."""
+    if not isinstance(st, ast.If):
+        raise ExtractError(f"early exit: expected an if-chain, found `{pyextract.norm(st)[:120]}`")
+    body = [pyextract.norm(x) for x in st.body]
+    if body == ["pass"]:
+        then = "false"
+    elif len(body) == 1 and body[0] in EARLY_WAITS:
+        then = "true"
+    else:
+        raise ExtractError(f"early exit: unexpected branch `{'; '.join(body)[:160]}`")
+    if not st.orelse:
+        other = "false"
+    elif len(st.orelse) == 1:
+        other = _wait_chain(st.orelse[0], tr)
+    else:
+        raise ExtractError("early exit: an else-part with several statements")
+    return f"(if {tr.tr(st.test)} then {then} else {other})"
 APPEND = "patch.fns.append(functools.partial(finalizers.{fn}, finalizer=finalizer))"
 FN_LEAN = {"block_deletion": "Fn.block", "allow_deletion": "Fn.allow"}
 
@@ -215,7 +269,7 @@ def extract(ctx: Ctx) -> None:
         raise ExtractError(f"process_resource_causes: expected 3 top-level branches appending to patch.fns, found "
                            f"{len(appenders)} (append sites: {total_appends})")
     i_add, i_rem, i_rel = appenders
-    i_early = index(lambda s, t: isinstance(s, ast.If) and len(s.body) == 1 and isinstance(s.body[0], ast.Return)
+    i_early = index(lambda s, t: isinstance(s, ast.If) and isinstance(s.body[-1], ast.Return)
                     and "consistency_is_required" in pyextract.norm(s.test), "early return of the consistency gate")
     i_pcc = index(lambda s, t: isinstance(s, ast.If) and "process_changing_cause(" in t, "call of process_changing_cause")
     order = [i_ongoing, i_blocked, i_must, i_add, i_rem, i_req, i_early, i_pcc, i_delays, i_deleted, i_rel]
@@ -224,13 +278,28 @@ def extract(ctx: Ctx) -> None:
     # fixed-shape statements the model's composition relies on
     expect = {
         i_req: "consistency_is_required = changing_cause is not None",
-        i_early: "if consistency_is_required and (not consistency_is_achieved):\n    return (list(spawning_delays), False)",
         i_delays: "delays = list(spawning_delays) + list(changing_delays)",
         i_deleted: "deleted = raw_event['type'] == 'DELETED'",
     }
     for i, want in expect.items():
         if texts[i] != want:
             raise ExtractError(f"process_resource_causes: expected `{want}`, found `{texts[i][:160]}`")
+    # the early exit: what it returns as delays
+    est = body[i_early]
+    ebody = [pyextract.norm(x) for x in est.body]
+    if (pyextract.norm(est.test) != "consistency_is_required and (not consistency_is_achieved)" or est.orelse
+            or len(est.body) != 3 or ebody[0] != EARLY_BODY[0] or ebody[2] != EARLY_BODY[2]):
+        raise ExtractError("process_resource_causes: the early exit of the consistency gate no longer returns "
+                           "`list(spawning_delays) + list(waiting_delays)` with one conditional waiting delay; "
+                           f"found `{texts[i_early][:400]}`")
+    wait_c = _wait_chain(est.body[1], pyextract.BoolTranslator(WAIT_VOCAB))
+    n_wait = sum(1 for n in ast.walk(fn) if isinstance(n, (ast.Assign, ast.AnnAssign, ast.AugAssign))
+                 and "waiting_delays" in [pyextract.norm(t) for t in (n.targets if isinstance(n, ast.Assign) else [n.target])])
+    if n_wait != 1 + sum(1 for n in ast.walk(est.body[1]) if isinstance(n, ast.Assign)):
+        raise ExtractError("process_resource_causes: `waiting_delays` is assigned in an unmodelled place")
+    if texts[0] != "patch_initially_empty = not patch" or sum(1 for n in ast.walk(fn) if isinstance(n, (ast.Assign, ast.AnnAssign, ast.AugAssign))
+            and "patch_initially_empty" in [pyextract.norm(t) for t in (n.targets if isinstance(n, ast.Assign) else [n.target])]) != 1:
+        raise ExtractError("process_resource_causes: `patch_initially_empty` is no longer `not patch` at the head of the function")
     if not (texts[i_pcc].startswith("if changing_cause is not None:\n    changing_delays = await process_changing_cause(")
             and "changing_delays: Collection[float] = []" in texts[i_early + 1:i_pcc + 1]):
         raise ExtractError("process_resource_causes: changing_delays is no longer [] unless process_changing_cause runs")
@@ -260,9 +329,15 @@ def extract(ctx: Ctx) -> None:
                    "remaining_patch = patches.Patch(fns=carried_fns) if carried_fns else None",
                    "memory.remaining_patch = remaining_patch"]
     pos = [pre_texts.index(t) if t in pre_texts else -1 for t in carry_stmts]
-    if -1 in pos or pos != sorted(pos) or sum(1 for t in pre_texts if t.startswith("memory.remaining_patch =")) != 1:
+    stores = [t for t in pre_texts if t.startswith("memory.remaining_patch =")]
+    if -1 in pos or pos != sorted(pos) or stores != [carry_stmts[2]]:
         raise ExtractError("process_resource_event: the remaining patch is not stored through the `_is_finalizer_fn` filter "
-                           "(memory.remaining_patch would carry the framework's own finalizer edits)")
+                           "(memory.remaining_patch would carry the framework's own finalizer edits), or is re-bound in an unmodelled place")
+    # the cycle's patch starts with what was carried (`patch_initially_empty` reads it), and is bound once
+    start = "patch = patches.Patch(memory.remaining_patch, body=body)"
+    if [t for t in pre_texts if t.startswith("patch =")] != [start]:
+        raise ExtractError("process_resource_event: the cycle's patch is no longer `Patch(memory.remaining_patch, body=body)`, bound once "
+                           "(carried transformations are dropped or re-bound before the cycle)")
     try:
         isf = pyextract.find_def(tree, "_is_finalizer_fn")
     except ExtractError:
@@ -324,12 +399,15 @@ def extract(ctx: Ctx) -> None:
     out += f"def removeCond (a : Atoms) : Bool :=\n  {rem_c}\n\n"
     out += f"def earlyCond (a : Atoms) : Bool :=\n  {early_c}\n\n"
     out += f"def releaseCond (a : Atoms) : Bool :=\n  {rel_c}\n\n"
+    out += "/-- inside the early exit: the rest of the waiting time is returned as one more delay -/\n"
+    out += f"def waitCond (a : Atoms) : Bool :=\n  {wait_c}\n\n"
     out += "/-- (fn appended, `changing_cause = None`) per branch -/\n"
     out += f"def addEffect : Fn × Bool := {eff(effects[0])}\n"
     out += f"def removeEffect : Fn × Bool := {eff(effects[1])}\n"
     out += f"def releaseEffect : Fn × Bool := {eff(effects[2])}\n"
     out += f"def appendSites : Nat := {total_appends}\n"
     out += f"def earlyReturnsBeforeRelease : Bool := {'true' if i_early < i_pcc < i_rel else 'false'}\n"
+
     out += "/-- the fns `_is_finalizer_fn` recognises: dropped from `memory.remaining_patch` after a rejected patch -/\n"
     out += f"def ownFns : List Fn := [{', '.join(dropped)}]\n\n"
     out += "/-- application.apply: `changed` (the sleep-then-touch for the delays is skipped iff `delay and changed`) -/\n"
@@ -752,6 +830,14 @@ def gen_scenario(rng: Any, seed: int) -> dict:
         timeline.append([ts + rng.choice([0.5, 2.0, 5.0]), "start"])
     if any((h.get("opts") or {}).get("cancellation_polling", 0) > 600 for h in handlers) and not any(h["kind"] == "timer" for h in handlers):
         end = t + 1500.0      # long enough for a capped sleep (600 s), the touch after it and the release
+    if rng.random() < 0.1:
+        # lost echoes: watch events arrive late, and the stream is cut (with a compaction: kopf re-lists) at some moment —
+        # a version the worker awaits may never arrive (the early exit of the consistency gate must come back: /repo 30557a0)
+        sc["echo_delay"] = {"default": rng.choice([0.25, 0.5])}
+        settings["watching.reconnect_backoff"] = 0.125     # (kopf's default 0.1 s is not a dyadic time: harness/sim needs 1/64 s)
+        for _ in range(rng.choice([1, 1, 2])):
+            base = rng.choice([e[0] for e in timeline if e[1] not in ("stop", "kill", "start")])
+            timeline.append([base + rng.choice([0.0, 0.0, 0.25, 0.5, 0.75]), "cut", *rng.choice([["410"], ["410"], []])])
     sc["end"] = end
     return sc
 
@@ -916,6 +1002,14 @@ class View:
         return why
 
 
+def _carried(cyc: dict) -> int:
+    """How many transformation fns the cycle's patch started with (the fns left in `memory.remaining_patch` by the
+    previous cycle): observed at the entry of `process_resource_causes` (sim_c06) — `patch_initially_empty` is read
+    there —, else read off the memory snapshot."""
+    raw = (((cyc.get("mem_before") or {}).get("remaining_patch") or {}).get("fns") or 0)
+    return int(cyc["fns_at_entry"]) if "fns_at_entry" in cyc else raw
+
+
 def _cycle_requests(view: View, cyc: dict) -> list[dict]:
     who = f"op#{cyc['inc']}"
     t1 = cyc.get("t1", float("inf"))
@@ -944,6 +1038,10 @@ def _main_chain(view: View, cyc: dict) -> tuple[list[dict], dict | None]:
     for sub in (False, True):
         r = next((r for r in rs if "merge-patch" in (r.get("ctype") or "") and r["wall"] == t
                   and r["path"].endswith("/status") == sub), None)
+        if r is not None and not merges and _touch_only(r) and not ap.get("patch"):
+            # not the cycle's patch (it has no dict content; the removal of a touch-dummy would carry a null) but the TOUCH of
+            # a cycle that returned a zero delay and whose patch sent nothing: it leaves at the very instant `apply` is entered
+            r = None
         if r is not None:
             merges.append(r)
             t += LAT
@@ -1022,7 +1120,8 @@ def abstract_cycle(view: View, cyc: dict) -> dict | None:
     spawn_hs = [h for h in hs if h["kind"] in SPAWNING_KINDS]
     chg_hs = [h for h in hs if h["kind"] in CHANGING_KINDS]
     pcc = cyc.get("pcc")
-    carried = ((mb.get("remaining_patch") or {}).get("fns") or 0)
+    carried_raw = ((mb.get("remaining_patch") or {}).get("fns") or 0)
+    carried = _carried(cyc)
     n_chg_delays = len(pcc.get("delays", [])) if pcc else 0
     inp = {
         "spawning": bool(spawn_hs),
@@ -1033,8 +1132,11 @@ def abstract_cycle(view: View, cyc: dict) -> dict | None:
         "isOngoing": bool(_meta(body).get("deletionTimestamp")),
         "deletedEvent": False,
         "consistent": pcc is not None,
-        "spawnDelays": len(ap.get("delays") or []) - n_chg_delays > 0,
+        "spawnDelays": bool(cyc.get("spawning_delays")),      # what process_spawning_cause returned (observed)
         "changeDelays": n_chg_delays > 0,
+        "deadline": cyc.get("consistency_time") is not None,  # the worker still awaits the version of its own last patch
+        "paused": False,                                      # the simulated operators have no peering: never paused
+        "carried": carried > 0,                               # not patch_initially_empty: the patch started with carried fns
     }
     merge, js = _main_requests(view, cyc)
     fresh = fins
@@ -1044,7 +1146,7 @@ def abstract_cycle(view: View, cyc: dict) -> dict | None:
         else:
             fresh = _fins(merge["result"])
     ma = cyc.get("mem_after") or {}
-    return {"in": inp, "carried": len(_own_fns(ap["fns"][:carried])), "carried_raw": carried,
+    return {"in": inp, "carried": len(_own_fns(ap["fns"][:carried])), "carried_raw": carried_raw, "forgotten": carried_raw - carried,
             "fns": _own_fns(ap["fns"]), "new": _own_fns(ap["fns"][carried:]),
             "user_fns": len(ap["fns"]) != len(_own_fns(ap["fns"])), "ran": pcc is not None,
             "fresh": fresh, "merge": merge, "json": js, "marked": inp["isOngoing"],
@@ -1116,13 +1218,20 @@ def trace_items(view: View) -> tuple[dict, list, dict] | None:
         running = set(mb.get("running_daemons") or [])
         forever = set(mb.get("forever_stopped") or [])
         pcc = cyc.get("pcc")
-        n_sp = len(ap.get("delays") or []) - (len(pcc.get("delays", [])) if pcc else 0)
+        n_sp = len(cyc.get("spawning_delays") or [])
         marked_v = bool(_meta(body).get("deletionTimestamp"))
         live = bool(hsp and hsp["id"] in running)
         if live and (marked_v or not mdmn(labels)) and n_sp <= 0:
             live = False       # exited within the stop call, or abandoned after its timeouts: no delay is reported any more
         seq = cyc["i"] * 10
         t = ap["t"]
+        if hsp and not marked_v and mdmn(labels) and hsp["id"] not in forever and n_sp > 0:
+            # the id is held by an instance that was asked to stop (filter mismatch) while the object matches again: it is
+            # escorted to its end and the cycles come back (polling) to start a new one — /repo ef26531, C09's subject; the
+            # LTS knows a daemon's stopping only on objects it does not match or that are marked
+            note["truncated"] = note["truncated"] or "a stopping daemon instance holds the id while the object matches again (C09)"
+            items.append((t, 1, seq, None, None, "stop"))
+            continue
         if hsp:
             items.append((t, 1, seq, ["syncDaemon", live, bool(hsp["id"] in forever)], None, "sync"))
         done_after = bool(hdel and view.finished(hdel, uid, t, upto=cyc["i"]))
@@ -1131,7 +1240,7 @@ def trace_items(view: View) -> tuple[dict, list, dict] | None:
         merge, js = _main_requests(view, cyc)
         if merge is not None and _touch_only(merge) and not ap["patch"]:
             merge = None
-        carried = ((mb.get("remaining_patch") or {}).get("fns") or 0)
+        carried = _carried(cyc)
         new = _own_fns(ap["fns"][carried:])
         chg_hs = [h for h in view.handlers if h["kind"] in CHANGING_KINDS]
         changing = any(_match(h, labels) for h in chg_hs)
@@ -1144,6 +1253,8 @@ def trace_items(view: View) -> tuple[dict, list, dict] | None:
                "otherChanging": any(_match(h, labels) for h in chg_hs if h is not hdel),
                "otherDelays": bool(pcc and pcc.get("delays")), "mergeChanges": mchg,
                "userFns": len(ap["fns"]) != len(_own_fns(ap["fns"])),
+               "carried": carried > 0,
+               "waiting": cyc.get("consistency_time") is not None,
                "delReset": bool(pcc is not None and not done_after)}
         snap = {"rv": vi, "marked": marked_v, "fins": _fins(body), "matchDel": mdel(labels), "matchDmn": mdmn(labels)}
         exp: dict[str, Any] = {"pending": {"fns": _own_fns(ap["fns"]), "merge": merge is not None, "view": _fins(body),
@@ -1344,7 +1455,7 @@ def classify_early(view: View, cyc: dict | None, req: dict, uid: str, T: float) 
     if cyc is None or not cyc.get("apply"):
         return SIG_EARLY, ""
     ap = cyc["apply"]
-    carried = (((cyc.get("mem_before") or {}).get("remaining_patch") or {}).get("fns") or 0)
+    carried = _carried(cyc)
     old, new = ap["fns"][:carried], ap["fns"][carried:]
     seen_labels = _labels(cyc["body"])
     tested = next((o.get("value") for o in (req.get("payload") or []) if isinstance(o, dict) and o.get("op") == "test"), None)
@@ -1422,7 +1533,7 @@ def check_cycle(ctx: Ctx, view: View, sc: dict, cyc: dict) -> None:
             ctx.oracle_fail(what, {"scenario": sc, "cycle": cyc["i"], "labels": labels, "finalizers": fins, "json_patch": js and js.get("payload")},
                             {"site": "processing.process_resource_causes", "shape": "not added when required" if want else "not removed when not required"})
     if after is not None and OWN in after and OWN not in fresh and (not req_by or marked):
-        carried = (((cyc.get("mem_before") or {}).get("remaining_patch") or {}).get("fns") or 0)
+        carried = _carried(cyc)
         stale = "block_deletion" in ap["fns"][:carried] and "block_deletion" not in ap["fns"][carried:]
         why = "the object is already marked for deletion" if marked else "no finalizer-requiring handler matches the object it saw"
         note = " [the addition was carried in memory.remaining_patch from an earlier cycle that got HTTP 422; this cycle decided none]" if stale else ""
@@ -1438,7 +1549,7 @@ def _classify_stuck(view: View, cycles: list[dict]) -> dict:
     merge, js = _main_requests(view, last) if last else (None, None)
     noop = merge is not None and isinstance(merge.get("result"), dict) and \
         _meta(merge["result"]).get("resourceVersion") == last.get("rv") and js is None
-    carried = (((last or {}).get("mem_before") or {}).get("remaining_patch") or {}).get("fns") or 0
+    carried = _carried(last) if last is not None else 0
     if last is not None and ap and "remaining_fns" not in ap:
         failed = [r for r in _cycle_requests(view, last) if r.get("fault") and r.get("response") not in (200, 422)]
         if failed:
@@ -1450,6 +1561,9 @@ def _classify_stuck(view: View, cycles: list[dict]) -> dict:
         return SIG_F8
     if ap.get("delays") and ap.get("patch") and noop:
         return SIG_F7
+    if last is not None and last.get("consistency_time") is not None and not last.get("pcc") and not ap.get("delays") and \
+            (noop or (merge is None and js is None)) and (ap.get("patch") or ap.get("fns")):
+        return SIG_N6      # (C03-N6 / C07-F2, repaired in /repo 30557a0: the early exit returns the rest of the waiting time)
     if ap.get("patch") and noop and not last.get("pcc"):
         return SIG_F6
     return {"site": "processing.process_resource_causes", "shape": "never released"}
@@ -1556,6 +1670,7 @@ def run_scenarios(ctx: Ctx, scenarios: list[dict], names: list[str | None]) -> N
                              "json_patch": outcome} if ab["fns"] and ab["carried"] else None)
             ctx.count("S.decision", ",".join(ab["new"]) or "-")
             ctx.count("S.carried", ab["carried"])
+            ctx.count("S.carried_fns_dropped_before_the_cycle", ab["forgotten"])
             ctx.count("S.json_patch", outcome)
             ctx.count("S.merge_first", ab["merge"] is not None and js is not None)
             if js is not None:
@@ -1629,6 +1744,7 @@ def run(ctx: Ctx) -> None:
         ctx.count("S.faults", len(sc.get("faults", [])))
         ctx.count("S.restarts", sum(1 for e in sc["timeline"] if e[1] in ("stop", "kill")))
         ctx.count("S.deleted", any(e[1] == "delete" for e in sc["timeline"]))
+        ctx.count("S.lost_echoes (echo delay + cut streams)", bool(sc.get("echo_delay")))
     run_scenarios(ctx, scenarios, names)
     ctx.extra["notes"] = ctx.notes
 
@@ -1636,7 +1752,7 @@ def run(ctx: Ctx) -> None:
 def search(ctx: Ctx, broken: list) -> None:
     """A proof/tie is broken: look for a concrete failing history/list with the oracle at a larger budget."""
     start = len(ctx.failures)
-    known = (SIG_F5, SIG_F5B, SIG_F9, SIG_F10)     # open findings (and F5's history): not what is looked for
+    known = (SIG_F5, SIG_F5B, SIG_F10)     # open findings (and F5's history): not what is looked for
 
     def found() -> bool:
         return any(f.kind == "oracle" and f.signature not in known for f in ctx.failures[start:])
